@@ -88,9 +88,9 @@ def determinism(tier):
     return 0 if ok else 2
 
 
-# one small defect per claimed property: (check id, file, old text, new text)
+# one small defect per claimed property: (check id, file, old text, new text[, text appended to the file])
 MUTANTS = [
-    ("C01", "sfs_generator/gasol_optimization.py", 'rule = "MOD(X,1)"\n            return 0', 'rule = "MOD(X,1)"\n            return inp_vars[0]'),
+    ("C01", "sfs_generator/gasol_optimization.py", 'rule = f"{opcode}(X,1)"\n            return inp_vars[0]', 'rule = f"{opcode}(X,1)"\n            return inp_vars[1]'),
     ("C02", "sfs_generator/gasol_optimization.py", "dep = abs(var1_int - var2_int) < 32", "dep = var1_int == var2_int"),
     ("C05", "verification/sfs_verify.py", 'return False, "PUSH values are different"', 'return True, ""'),
     ("C06", "smt_encoding/instructions/instruction_bounds_with_dependencies.py",
@@ -105,7 +105,9 @@ MUTANTS = [
      "    try:\n        return _compare_asm_block_asm_format(old_block, new_block, params)\n    except ZeroDivisionError as e:"),
     ("C11", "gasol_asm.py", "chosen_ids = greedy_ids if chosen_tag in ('greedy', 'greedy_no_model') else optimized_ids",
      "chosen_ids = optimized_ids"),
-    ("C12", "sfs_generator/gasol_optimization.py", "    global already_considered\n    already_considered = []", "    global already_considered"),
+    # the per-block reset becomes a module-level initialisation (the list survives from block to block)
+    ("C12", "sfs_generator/gasol_optimization.py", "    global already_considered\n    already_considered = []\n",
+     "    global already_considered\n", "\nalready_considered = []\n"),
     ("C13", "sfs_generator/gasol_optimization.py", "u_dict_sort = sorted(u_dict.keys())", "u_dict_sort = list(set(u_dict.keys()))"),
     ("C14", "solution_generation/optimize_from_sub_blocks.py", "            if previously_optimized:\n                optimized_instructions.append(previous_instructions[instr_idx-1])",
      "            if previously_optimized and sub_block_idx > 1:\n                optimized_instructions.append(previous_instructions[instr_idx-1])"),
@@ -121,7 +123,7 @@ def mutants(tier):
     base = tempfile.mkdtemp(prefix="gsim-mut-", dir="/dev/shm" if os.path.isdir("/dev/shm") else None)
     results = []
     try:
-        for cid, rel, old, new in MUTANTS:
+        for cid, rel, old, new, *append in MUTANTS:
             dst = os.path.join(base, cid)
             shutil.copytree(repo, dst, ignore=shutil.ignore_patterns(".git", "__pycache__", "examples/solidity"), symlinks=True)
             p = os.path.join(dst, rel)
@@ -130,7 +132,7 @@ def mutants(tier):
                 results.append((cid, "mutation site not found (%d matches)" % text.count(old)))
                 shutil.rmtree(dst, ignore_errors=True)
                 continue
-            open(p, "w").write(text.replace(old, new))
+            open(p, "w").write(text.replace(old, new) + "".join(append))
             env = dict(os.environ, GASOL_REPO=dst, PYTHONPATH=VERIF, GSIM_EVIDENCE_DIR=os.path.join(base, "evidence"))
             r = subprocess.run([os.path.join(VERIF, "bin", "vcheck"), cid, "--tier", "quick"], stdout=subprocess.PIPE,
                                stderr=subprocess.STDOUT, env=env, cwd=VERIF)
